@@ -20,6 +20,14 @@ VERIF = os.path.dirname(os.path.dirname(os.path.abspath(__file__)))
 if VERIF not in sys.path:
     sys.path.insert(0, VERIF)
 
+try:
+    # safety net: no single solver query may run for more than 5 minutes unless it sets its own limit (a query without a limit once kept
+    # a worker busy for half an hour)
+    import z3 as _z3
+    _z3.set_param("timeout", 300000)
+except Exception:  # noqa
+    pass
+
 _EXT = "vtlengine.AST.Grammar._cpp_parser.vtl_cpp_parser"
 _REG = {}
 
